@@ -12,6 +12,9 @@ NAMED = [('T0', '"a"'), ('T1', '"b"'), ('T2', '/[ab]+/'), ('T3', '/a+/'), ('T4',
 TRAPS = [('PLUS', '"++"'), ('COLON', '"::"'), ('A', '"aa"'), ('AB', '"b"'), ('PLUS', '/\\++/'), ('MINUS', '"--"'), ('DOT', '".."'), ('B', '/b+/')]
 LITS = ['a', 'b', 'ab', 'aa', 'c', '+', ':', '++', '-', '.', 'ba']
 TRAP_LITERAL = {'PLUS': '+', 'COLON': ':', 'MINUS': '-', 'DOT': '.', 'A': 'a', 'AB': 'ab', 'B': 'b'}
+# terminals defined by alternatives (lark joins them into one regexp, longest option first); the widest alternative contains the others, so that the
+# joined regexp's preferred match is the longest one (outside finding F6's region); as meant: one terminal per alternative under an inlined rule
+ALT_TERMS = [('T7', ['"ab"', '/[ab]+/']), ('T8', ['"a"', '/a+/']), ('T9', ['"ba"', '"b"', '/b[ab]*/']), ('T7', ['/[ab]+/', '"ab"', '"abb"'])]
 IGNORES = [('" "', [' ']), ('/ +/', [' ', '  '])]
 
 
@@ -24,6 +27,10 @@ def gen(rng):
             named[k] = v
             if k in TRAP_LITERAL and rng.random() < 0.7:
                 forced.append(TRAP_LITERAL[k])      # the literal whose automatic name is the user's terminal name
+    alt_term = None
+    if rng.random() < 0.25:
+        alt_term = rng.choice(ALT_TERMS)
+        named[alt_term[0]] = ' | '.join(alt_term[1])
     tn = list(named)
     def sym(pool_nts):
         r = rng.random()
@@ -44,6 +51,8 @@ def gen(rng):
     for lit in forced:
         a = rng.choice(rules['start'])
         a.insert(rng.randint(0, len(a)), ('lit', lit))
+    if alt_term and not any(x == ('T', alt_term[0]) for n in rules for a in rules[n] for x in a):
+        rules['start'].append([('T', alt_term[0])] + ([('T', alt_term[0])] if rng.random() < 0.5 else []))
     # a large ranged repetition (compiled through factored helper rules): `"c" x~n..m` as one more alternative of start
     big = None
     if rng.random() < 0.1:
@@ -61,7 +70,7 @@ def gen(rng):
             rules[n] = [body] + ([[('lit', rng.choice(LITS))]] if rng.random() < 0.3 else [])
         dead += names
     ign = rng.choice(IGNORES) if rng.random() < 0.5 else None
-    return {'rules': rules, 'named': named, 'ignore': ign, 'big': big}
+    return {'rules': rules, 'named': named, 'ignore': ign, 'big': big, 'alt_term': alt_term}
 
 
 def _render(rules, named, ign, lit_name=None):
@@ -109,6 +118,13 @@ def as_meant(ast):
             lit_name[s_] = '_L%d' % i; extra['_L%d' % i] = '"%s"' % s_
     lnamed = {k: v for k, v in named.items() if k in used_t}
     lnamed.update(extra)
+    if ast.get('alt_term') and ast['alt_term'][0] in lnamed:
+        tname, alts_ = ast['alt_term']
+        del lnamed[tname]
+        for i, a_ in enumerate(alts_):
+            lnamed['_%s_%d' % (tname, i)] = a_
+        lrules = {n: [[(('nt', '_alt_' + tname.lower()) if x == ('T', tname) else x) for x in a] for a in alts] for n, alts in lrules.items()}
+        lrules['_alt_' + tname.lower()] = [[('T', '_%s_%d' % (tname, i))] for i in range(len(alts_))]
     txt = _render(lrules, lnamed, ast['ignore'], lit_name)
     if ast.get('big'):
         item, lo, hi = ast['big']
@@ -126,6 +142,8 @@ def _case(seed):
     rec = {'as_written': gw, 'as_meant': gm, 'diffs': [], 'compared': 0, 'builds': {}}
     texts = None
     for lexer in ('basic', 'dynamic', 'dynamic_complete'):
+        if ast.get('alt_term') and lexer != 'dynamic_complete':
+            continue        # one terminal per alternative tokenises differently under the other lexers; the exact language is dynamic_complete's
         ps = []
         for g in (gw, gm):
             try:
